@@ -4,6 +4,37 @@ package codegen
 
 // Contracts for the deductive checker in /verif (comment-only file; adds no code).
 //
+// ---- table[E]: rows with de-duplication (C10) ------------------------------------------
+//
+// rowKeyOf: what rowKey computes, as a function of the row's contents only. That it is
+// injective (the varint framing of binary.AppendVarint) is assumed here and exercised
+// by the bounded harness.
+//@ ghost func rowKeyOf(xs []E) string injective content
+//@ func table.rowKey
+//@   trusted
+//@   ensures result == rowKeyOf(xs)
+//
+//@ pure func validOff(r *table[E], o int) bool = 0 <= o && o < len(r.arr) && r.arr[o] >= 0 && o + 1 + r.arr[o] <= len(r.arr)
+//@ pure func storedRow(r *table[E], o int) []E = r.arr[o+1 : o+1+r.arr[o]]
+//@ pure func tableInv(r *table[E]) bool = !isnil(r) && !isnil(r.rowMap) && !isnil(r.index) && r.maxIndex >= -1 && r.index != r.rowMap && (forall i int :: {has(r.index, i)} has(r.index, i) ==> 0 <= i && i <= r.maxIndex && validOff(r, r.index[i])) && (forall k string :: {has(r.rowMap, k)} has(r.rowMap, k) ==> validOff(r, r.rowMap[k]) && rowKeyOf(storedRow(r, r.rowMap[k])) == k)
+//
+//@ func newTable
+//@   ensures tableInv(result) && fresh(result) && result.maxIndex == -1 && len(result.arr) == 0
+//@   ensures forall i int :: !has(result.index, i)
+//@   modifies nothing
+//
+//@ func table.AddRow
+//@   requires tableInv(r) && index > r.maxIndex && len(row) < 2147483647
+//@   requires len(row) == 0 || base(row) != base(r.arr)
+//@   let o = r.index[index]
+//@   ensures tableInv(r) && r.maxIndex == index && has(r.index, index)
+//   the row stored for `index` is the row that was passed
+//@   ensures int(r.arr[o]) == len(row) && forall j int :: {row[j]} 0 <= j && j < len(row) ==> r.arr[o + 1 + j] == old(row[j])
+//   other rows are untouched
+//@   ensures forall i int :: {has(r.index, i)} i != index ==> (has(r.index, i) <==> old(has(r.index, i))) && r.index[i] == old(r.index[i])
+//@   ensures len(r.arr) >= old(len(r.arr)) && forall q int :: {r.arr[q]} 0 <= q && q < old(len(r.arr)) ==> r.arr[q] == old(r.arr[q])
+//@   modifies r.maxIndex, r.arr, r.index[*], r.rowMap[*], r.arr[len(r.arr):cap(r.arr)]
+//
 // ---- action binding (C06) --------------------------------------------------------------
 //
 // termTy: the Go type of the value a term puts on the parse stack.
